@@ -535,8 +535,16 @@ func c17Transformer(c *core.Ctx, r *rand.Rand) {
 	c.Eval(1)
 	validPart := ref.ValidNamePart(id)
 	pattern := "svc." + c17RandLit(r, 3, false) + ".$id"
-	if r.Intn(2) == 0 {
+	switch r.Intn(4) {
+	case 0:
 		pattern = "svc.$id." + c17RandLit(r, 3, false)
+	case 1:
+		// the text "$id" inside a literal token is not the placeholder
+		if r.Intn(2) == 0 {
+			pattern = "svc." + c17RandLit(r, 2, false) + "$id.$id"
+		} else {
+			pattern = "svc.$id.x$id" + c17RandLit(r, 2, false)
+		}
 	}
 	tr := store.IDTransformer("id", nil)
 	rid := tr.IDToRID(id, nil, res.Pattern(pattern))
@@ -613,7 +621,13 @@ func c17Transformer(c *core.Ctx, r *rand.Rand) {
 	for _, same := range []bool{false, true} {
 		lp := rel
 		if !same {
-			lp = strings.Replace(rel, "$id", "$key", 1)
+			lt := append([]string{}, toks...)
+			for i, t := range lt {
+				if t == "$id" {
+					lt[i] = "$key"
+				}
+			}
+			lp = strings.Join(lt, ".")
 		}
 		m3 := res.NewMux("svc")
 		pn := try(func() {
